@@ -667,10 +667,17 @@ impl Gen {
                 Step::Broker(BrokerAct::Send(SPacket::PubRel { pid, reason, props }))
             }
             16 => Step::Broker(BrokerAct::Close),
-            17 => Step::Broker(BrokerAct::Send(SPacket::Disconnect {
-                reason: rng.chance(1, 2).then(|| *rng.pick(&[0x8Bu8, 0x8E, 0x98, 0x00])),
-                props: None,
-            })),
+            17 => {
+                // short form, reason only, or the long form with properties
+                let reason = rng.chance(2, 3).then(|| *rng.pick(&[0x8Bu8, 0x8E, 0x98, 0x00, 0x04, 0x81, 0x9D]));
+                let props = match (reason, rng.below(4)) {
+                    (Some(_), 0) => Some(vec![]),
+                    (Some(_), 1) => Some(vec![Prop::ReasonString(rand_string(rng, 8))]),
+                    (Some(_), 2) => Some(vec![Prop::ServerReference("other:1883".into()), Prop::UserProperty("k".into(), "v".into())]),
+                    _ => None,
+                };
+                Step::Broker(BrokerAct::Send(SPacket::Disconnect { reason, props }))
+            }
             18 => Step::Broker(BrokerAct::SendRaw({ let n = rng.range(1, 10); rng.bytes(n) })),
             19 => Step::Advance(*rng.pick(&[1u64, 1000, 1_000_000, 30_000_000])),
             20 => Step::Io { policy: Some(rand_policy(rng, true)), faults: vec![] },
